@@ -47,5 +47,5 @@ s = s[:a] + "\n".join(rows) + "\n" + s[b:]
 open(p, "w").write(s)
 def cnt(tag, missed=False):
     return sum(1 for r in rows if tag in r.split("|")[1] and (not missed or "**missed**" in r))
-print("rows: %d; round 1: %d (missed at intake %d); round 2: %d (missed %d); round 3: %d (missed %d); round 4: %d (missed %d); round 5: %d (missed %d); round 6: %d (missed %d); round 7: %d (missed %d); round 8: %d (missed %d); round 9: %d (missed %d); not reported now: %d" % (
-    len(rows), cnt("-s"), cnt("-s", True), cnt("-t"), cnt("-t", True), cnt("-u"), cnt("-u", True), cnt("-v"), cnt("-v", True), cnt("-w"), cnt("-w", True), cnt("-x"), cnt("-x", True), cnt("-y"), cnt("-y", True), cnt("-z"), cnt("-z", True), cnt("-a"), cnt("-a", True), sum(1 for r in rows if "**none**" in r)))
+print("rows: %d; round 1: %d (missed at intake %d); round 2: %d (missed %d); round 3: %d (missed %d); round 4: %d (missed %d); round 5: %d (missed %d); round 6: %d (missed %d); round 7: %d (missed %d); round 8: %d (missed %d); round 9: %d (missed %d); round 10: %d (missed %d); not reported now: %d" % (
+    len(rows), cnt("-s"), cnt("-s", True), cnt("-t"), cnt("-t", True), cnt("-u"), cnt("-u", True), cnt("-v"), cnt("-v", True), cnt("-w"), cnt("-w", True), cnt("-x"), cnt("-x", True), cnt("-y"), cnt("-y", True), cnt("-z"), cnt("-z", True), cnt("-a"), cnt("-a", True), cnt("-b"), cnt("-b", True), sum(1 for r in rows if "**none**" in r)))
